@@ -472,6 +472,22 @@ def ob_ops(Ne, nPg, dim, seed):
         same(TensorProd(fa, fb, symmetric=True), loop(lambda x, y: 0.5 * (np.einsum("ik,jl->ijkl", x, y) + np.einsum("il,jk->ijkl", x, y)), ("fe", a), ("fe", b)),
              "TensorProd symmetric")
         same(Norm(fa, axis=(-2, -1)), np.linalg.norm(a, axis=(-2, -1)), "Norm")
+        # a plain array next to a field is a constant tensor, on either side
+        c2, c1 = _rand(rng, (dim, dim)), _rand(rng, (dim,))
+        for nm_, f_, want_ in (("TensorProd(constant, field) matrices", lambda: TensorProd(c2, fa), lambda: loop(np.multiply.outer, ("c", c2), ("fe", a))),
+                               ("TensorProd(field, constant) matrices", lambda: TensorProd(fa, c2), lambda: loop(np.multiply.outer, ("fe", a), ("c", c2))),
+                               ("TensorProd(constant, field) vectors", lambda: TensorProd(c1, FeArray.asfearray(v1)), lambda: loop(np.multiply.outer, ("c", c1), ("fe", v1))),
+                               ("TensorProd(field, constant) vectors", lambda: TensorProd(FeArray.asfearray(v1), c1), lambda: loop(np.multiply.outer, ("fe", v1), ("c", c1))),
+                               ("TensorProd(field, constant) symmetric", lambda: TensorProd(fa, c2, symmetric=True),
+                                lambda: loop(lambda x, y: 0.5 * (np.einsum("ik,jl->ijkl", x, y) + np.einsum("il,jk->ijkl", x, y)), ("fe", a), ("c", c2)))):
+            n += 1
+            try:
+                got_ = f_()
+            except Exception as ex_:
+                fail(f"{nm_}: raises {type(ex_).__name__}: {ex_}")
+            same(got_, want_(), nm_)
+            if not isinstance(got_, FeArray):
+                fail(f"{nm_}: result is not a FeArray")
     # size-1 leading axes: a per-element field (Ne,1,...) against a per-point field (1,nPg,...) runs at (Ne,nPg)
     leads = [(Ne, 1), (1, nPg), (Ne, nPg), (1, 1)]
     for la in leads:
@@ -555,6 +571,20 @@ def ob_ops(Ne, nPg, dim, seed):
                     continue
                 same(left, wl, f"Field {opn} {oname}")
                 same(right, wr, f"{oname} {opn} Field")
+        # matrix products with a vector Field, a constant matrix on either side (a non-symmetric one: W @ u and u @ W differ)
+        for et_, nc in (("TRI3", 2), ("TETRA4", 3), ("TETRA4", 2)):
+            g_ = patches.two_element_mesh(et_).groupElem
+            vf = Field(g_, nc)
+            vf._Set_current_active_node(1)
+            vf._Set_current_active_dof(nc - 1)
+            base = np.asarray(vf())
+            W = np.arange(1.0, nc * nc + 1).reshape(nc, nc) + np.triu(np.ones((nc, nc)), 1) * 3
+            FW = FeArray.asfearray(_rand(rng, base.shape[:2] + (nc, nc)))
+            n += 4
+            same(W @ vf, np.einsum("ij,epj->epi", W, base), f"constant matrix @ vector Field ({et_}, {nc} components)")
+            same(vf @ W, np.einsum("epi,ij->epj", base, W), f"vector Field @ constant matrix ({et_}, {nc} components)")
+            same(FW @ vf, np.einsum("epij,epj->epi", np.asarray(FW), base), f"FeArray matrix @ vector Field ({et_}, {nc} components)")
+            same(vf @ FW, np.einsum("epi,epij->epj", base, np.asarray(FW)), f"vector Field @ FeArray matrix ({et_}, {nc} components)")
     except ImportError:
         pass
     return Verdict(DISCHARGED, backend="native run of the real FeArray vs explicit per-(e,p) loops, integer-valued data", sub=n)
